@@ -30,7 +30,7 @@ checks = {
    text="BFS over all histories up to depth 5 (quick) / 7 (thorough) of 16 operations for 5 configurations on the real EventLogger under a virtual clock; every transition compared with an exact list model (dump map, dump order, running size counter); every transition runs under a watchdog (an operation that does not return is a violation).",
    note="Distinct Printf calls get distinct time stamps (1 ns apart).", ref="3 C18"),
  "C19": dict(engine="E2+E1", cat="model_checking", tech="explicit-state BFS of sequential histories + exhaustive interleaving exploration (unbounded preemptions) with the clock read as a scheduling point",
-   text="Sequential: BFS over Allow/advance histories for limit 1..3 with exact judgement. Concurrent: every interleaving of 3-4 callers and a clock thread (lock acquisition, clock read and tick are scheduling points), judged with interval arithmetic on each call's before/after instants so that only certain violations count. The same bodies run free under the race detector as auxiliary evidence.",
+   text="Sequential: BFS over Allow/advance histories for limit 1..3 with exact judgement, state key = model state + clock-independent rendering of all fields of the limiter; a second search over a coarse clock alphabet to depth 13/16 (fill, replace, idle window, refill, probe). Concurrent: every interleaving of 3-4 callers and a clock thread (lock acquisition, clock read and tick are scheduling points), judged with interval arithmetic on each call's before/after instants so that only certain violations count. The same bodies run free under the race detector as auxiliary evidence.",
    note="Virtual time replaces the wall clock; real-scheduler starvation is out of reach.", ref="3 C19"),
 
  "C05": dict(engine="E3", cat="fault_enumeration", tech="crash-state enumeration: every mutating file-system step of every short operation history, recovery by the real constructor vs model of the durable prefix",
@@ -40,7 +40,7 @@ checks = {
    text="Every combination of per-slot reading x fate of the original datagram (delivered, dropped, duplicated) x earlier sync round (none, dial failure, malformed reply, all retransmissions dropped, delivered) x (nothing, week rotation, server restart), then a fault-free round, on a real client and a real server in one process; afterwards all delivered datagrams are re-delivered in reverse order. Every slot with a reading must be held by the server with the right value and not banned, and every datagram ever emitted for a slot must be byte-identical to the first.",
    note="3 adjacent slots chosen so that mirrored/shifted bit mappings collide; readings fit 32 signed bits (the property's restriction); delays are not modelled.", ref="3 C08"),
  "C09": dict(engine="E2", cat="model_checking", tech="explicit-state BFS over energy-file edit / tick / restart / sync histories on the real client, wire log oracle; BFS over history-store operations vs map model",
-   text="BFS (depth 4 quick / 5 thorough) over histories of energy-file edits, send-loop ticks (the loop's real timer), client restarts and sync rounds against a server that reports nothing received; every datagram on the wire is logged; per slot all datagrams with power not in {0,1} must be identical, no history cell may change once non-zero. Store level: BFS over save sequences vs a map model.",
+   text="BFS (depth 4 quick / 5 thorough) over histories of energy-file edits, send-loop ticks (the loop's real timer), client restarts and sync rounds against a server that reports nothing received; every datagram on the wire is logged; per slot all datagrams with power not in {0,1} must be identical, no history cell may change once non-zero. Store level: BFS over save sequences vs a map model. Two goroutines: every interleaving at file operations of the report loop's conflict check + save against a sync round's scan on the same history file handle.",
    note="One known finding (values outside int32) is listed in known_findings.json and suppressed by signature.", ref="3 C09"),
  "C10": dict(engine="E4", cat="exploration", tech="exhaustive mutation enumeration (all single-bit flips, all truncations, re-signings, timestamp shifts) of real sync replies for a family of real server states, real handler -> real parser",
    text="For 13 real server states the real handler's reply goes through the real client parser and must equal the server snapshot; then every single-bit flip, every truncation, re-signing under 4 other keys, +-24h / +-24h+1s timestamps, foreign device binding, unsigned server entries and defective migration orders must be rejected without panic or state change; for every entry of the genuine list (and an accepted migration order), after the client has accepted it, every single-field alteration under the same signature bytes must be rejected; reference-encoded replies with arbitrary offsets, every single bitfield bit and server lists must parse to exactly those values.",
